@@ -144,12 +144,13 @@ bool classify_response(const std::string &pdu, const std::string &key, RespInfo 
 				r.has_chains = true;
 				// the lowest chain is the one with the longest index
 				size_t best = 0; std::string in;
-				for (auto *c : chains) { AggChain a; if (parse_agg_chain(*c, a) && a.index.size() >= best) { best = a.index.size(); in = a.input; } }
+				for (auto *c : chains) { r.chain_encs.push_back(c->enc()); AggChain a; if (parse_agg_chain(*c, a) && a.index.size() >= best) { best = a.index.size(); in = a.input; } }
 				r.first_input = in;
 			}
 			if (const Tlv *c = q.find(0x0802)) {
+				r.cal_enc = c->enc();
 				CalChain cc;
-				if (parse_cal_chain(*c, cc)) { r.has_cal = true; r.cal_pub = cc.pub; r.cal_agg = cc.agg; r.cal_input = cc.input; }
+				if (parse_cal_chain(*c, cc)) { r.has_cal = true; r.cal_pub = cc.pub; r.cal_agg = cc.agg; r.cal_input = cc.input; uint64_t dt; r.cal_shape_ok = cc.derive_time(dt) && dt == cc.agg; }
 			}
 		}
 	}
@@ -241,13 +242,14 @@ std::string World::seal(const EndpointCfg &ep, bool response, const std::vector<
 	return out;
 }
 
-std::vector<AggChain> World::build_chains(const std::string &hash, uint64_t level, uint64_t t, uint64_t subseed, int behav, std::string &root, int &root_level, int nchains) {
+std::vector<AggChain> World::build_chains(const std::string &hash, uint64_t level, uint64_t t, uint64_t subseed, int behav, std::string &root, int &root_level, int nchains, int start_level) {
 	Rng rng(sim::mix(subseed, 0xc4a1));
 	int n = nchains > 0 ? nchains : (int)rng.range(1, 3);
 	if (behav == B_BROKEN_LINK && n < 2) n = 2;
 	std::vector<AggChain> cs(n);
 	std::string cur = hash;
-	int lvl = 0;
+	int lvl = start_level;
+	if (behav == B_LOW_LEVEL && start_level > 0) lvl = start_level - 1;
 	for (int i = 0; i < n; i++) {
 		AggChain &c = cs[i];
 		c.time = t;
@@ -260,7 +262,6 @@ std::vector<AggChain> World::build_chains(const std::string &hash, uint64_t leve
 			l.lc = rng.chance(1, 3) ? rng.range(1, 2) : 0;
 			if (i == 0 && j == 0) {
 				l.lc = level + (rng.chance(1, 3) ? rng.range(1, 2) : 0);
-				if (behav == B_LOW_LEVEL && level > 0) l.lc = level - 1;
 			}
 			int kind = (int)rng.below(8);
 			if (kind == 0 && !(i == 0 && j == 0)) { l.kind = 1; l.sib = legacy_id("GT :: ref :: " + std::to_string(rng.below(1000))); }
@@ -286,7 +287,7 @@ std::vector<AggChain> World::build_chains(const std::string &hash, uint64_t leve
 	if (behav == B_OTHER_HASH) {
 		// a perfectly valid chain set, but for another document
 		std::string other = imprint(1, "another document " + std::to_string(subseed));
-		return build_chains(other, level, t, subseed ^ 0x77, B_HONEST, root, root_level, n);
+		return build_chains(other, level, t, subseed ^ 0x77, B_HONEST, root, root_level, n, start_level);
 	}
 	if (behav == B_BROKEN_LINK) cs[1].input = imprint(1, "broken" + std::to_string(subseed));
 	if (behav == B_WRONG_AGG_TIME) cs.back().time = t + 1;
@@ -348,11 +349,12 @@ std::string World::aggr_reply(const ReqInfo &rq, const EndpointCfg &ep, int beha
 	uint64_t t = next_round;
 	std::string root; int rl;
 	std::string hash = rq.hash;
-	auto cs = build_chains(hash, rq.has_level ? rq.level : 0, t, subseed, behav, root, rl);
+	int req_level = (int)std::min<uint64_t>(rq.has_level ? rq.level : 0, 255);
+	auto cs = build_chains(hash, 0, t, subseed, behav, root, rl, 0, req_level);
 	bool in_range = true;
 	if (behav == B_HONEST || behav == B_WITH_CONF || behav == B_NO_CAL) {
 		// a request whose level leaves no room for the tree above it cannot be served honestly
-		std::string o; int el = 0, lv = 0;
+		std::string o; int el = 0, lv = req_level;
 		for (auto &c : cs) { if (!fold_agg(c, lv, o, el)) { in_range = false; break; } lv = el; }
 	}
 	if (!in_range) {
